@@ -7,7 +7,9 @@ package gohlslib
 import (
 	"time"
 
+	"github.com/bluenviron/gohlslib/v2/pkg/codecs"
 	"github.com/bluenviron/gohlslib/v2/pkg/playlist"
+	"github.com/bluenviron/mediacommon/v2/pkg/codecs/mpeg4audio"
 )
 
 type vSD struct {
@@ -68,12 +70,21 @@ func VerifH_C19_run() {
 	sd := timestampToDuration(ticks, 90000)
 	pmin := time.Duration(verifRangeI64("pmin", int64(50*time.Millisecond), int64(time.Duration(verifParam("PMINMAX_MS", 400))*time.Millisecond)))
 	tr := verifVideoTrack()
+	tracks := []*Track{tr}
+	var atr *Track
+	arate := []int{8000, 44100}[verifChoice("audiorate", 2)]
+	if verifParam("AUDIO", 0) == 1 {
+		// an audio rendition whose access-unit duration differs from the frame duration: only the leading
+		// track's constant sample duration may determine the part duration
+		atr = &Track{Codec: &codecs.MPEG4Audio{Config: mpeg4audio.Config{Type: 2, SampleRate: arate, ChannelCount: 1}}, ClockRate: arate}
+		tracks = append(tracks, atr)
+	}
 	m := &Muxer{
 		Variant:            MuxerVariantLowLatency,
 		SegmentCount:       7,
 		SegmentMinDuration: time.Duration(verifParam("SEGMIN_MS", 500)) * time.Millisecond,
 		PartMinDuration:    pmin,
-		Tracks:             []*Track{tr},
+		Tracks:             tracks,
 		OnEncodeError:      func(error) {},
 	}
 	err := m.Start()
@@ -82,6 +93,7 @@ func VerifH_C19_run() {
 	gop := 3 + verifChoice("gop", verifParam("GOPS", 3)) // key frame every 3..5 frames (symbolic placement)
 	var lastTarget time.Duration
 	lastHadNonFinal := false
+	audioPTS := int64(0)
 	for k := 0; k < K; k++ {
 		var au [][]byte
 		if k%gop == 0 {
@@ -91,6 +103,14 @@ func VerifH_C19_run() {
 		}
 		err := m.WriteH264(tr, verifNTPBase.Add(time.Duration(k)*sd), int64(k)*ticks, au)
 		verifAssume(err == nil)
+		if atr != nil && k >= verifParam("AUDIOJOIN", 2) {
+			// audio joins a little later and keeps pace with the video
+			for audioPTS+1024 <= int64(k+1)*ticks*int64(arate)/90000 {
+				err = m.WriteMPEG4Audio(atr, verifNTPBase.Add(time.Duration(k)*sd), audioPTS, [][]byte{{0xA0, byte(k)}})
+				verifAssume(err == nil)
+				audioPTS += 1024
+			}
+		}
 		st := verifLLState(m, "video1")
 		if st == nil {
 			continue
